@@ -423,8 +423,9 @@ type recFetcher struct {
 	slots   map[string]*fetchSlot // caller|url, read-only map
 	mu      sync.Mutex
 	extra   []*FetchRec
-	panicOn string
-	panicV  any
+	panicOn     string
+	panicCaller int
+	panicV      any
 }
 
 func (f *recFetcher) slot(caller int, u string) *FetchRec {
@@ -444,7 +445,7 @@ func (f *recFetcher) Fetch(ctx context.Context, u string) (*corecrl.Bundle, erro
 	caller := callerOf(ctx)
 	r := f.slot(caller, u)
 	r.URL, r.Caller, r.TBegin = u, caller, time.Now()
-	if f.panicOn != "" && f.panicOn == u {
+	if f.panicOn != "" && f.panicOn == u && f.panicCaller == caller {
 		panic(f.panicV)
 	}
 	b, err := f.inner.Fetch(ctx, u)
@@ -535,6 +536,7 @@ func (s *stubFetcher) Fetch(ctx context.Context, u string) (*corecrl.Bundle, err
 // CallObs is what one caller observed.
 type CallObs struct {
 	World    *World
+	Rep      int
 	Results  []*result.CertRevocationResult
 	Err      error
 	Panicked bool
@@ -555,6 +557,7 @@ type RevObs struct {
 	LateEvents []string
 	HarnessErr string
 	TEnd       time.Time
+	PanicToken any
 }
 
 type panicToken struct{ id string }
@@ -573,38 +576,49 @@ func (sc *RevScenario) planExchanges(nt *Net, altSeed uint32) {
 	for _, w := range sc.Worlds {
 		w.fetchSlots = map[string]*fetchSlot{}
 		for _, cp := range w.Certs {
-			isRoot := cp.Pos == len(w.Certs)-1
-			for i, s := range cp.OCSP {
-				x := &Exchange{URL: s.URL, Kind: "ocsp", CertPos: cp.Pos, SrcIdx: i, Latency: lat(s.Latency), Fault: s.Fault, ReadCap: ocspReadCap}
-				if !isRoot {
-					x.Serve = w.serveOCSP(cp, s)
-				}
-				if sc.PanicAt == "transport" && sc.PanicWorld == w.ID && sc.PanicCert == cp.Pos && i == 0 {
-					x.Fault = Fault{Kind: FPanic}
-				}
-				nt.Plan(w.callerKey(), x)
-				s.X = []*Exchange{x}
+			for _, s := range cp.OCSP {
+				s.X = nil
 			}
-			for i, s := range cp.CRL {
-				x := &Exchange{URL: s.URL, Kind: "crl", CertPos: cp.Pos, SrcIdx: i, Latency: lat(s.BaseLat), Fault: s.BaseFault, ReadCap: crlReadCap}
-				if !isRoot {
-					x.Serve = w.serveCRL(cp, s, false)
-				}
-				if sc.PanicAt == "transport" && sc.PanicWorld == w.ID && sc.PanicCert == cp.Pos && i == 0 && len(cp.OCSP) == 0 {
-					x.Fault = Fault{Kind: FPanic}
-				}
-				nt.Plan(w.callerKey(), x)
-				s.XBase = []*Exchange{x}
-				s.XDelta = nil
-				for j, du := range s.DeltaURL {
-					dx := &Exchange{URL: du, Kind: "delta", CertPos: cp.Pos, SrcIdx: i, Latency: lat(s.DeltaLat[j]), Fault: s.DeltaFault[j], ReadCap: crlReadCap}
+			for _, s := range cp.CRL {
+				s.XBase = nil
+				s.XDelta = make([][]*Exchange, len(s.DeltaURL))
+			}
+		}
+		for rep := 0; rep < w.reps(); rep++ {
+			ck := w.callerKeyOf(rep)
+			for _, cp := range w.Certs {
+				isRoot := cp.Pos == len(w.Certs)-1
+				for i, s := range cp.OCSP {
+					x := &Exchange{URL: s.URL, Kind: "ocsp", CertPos: cp.Pos, SrcIdx: i, Latency: lat(s.Latency), Fault: s.Fault, ReadCap: ocspReadCap}
 					if !isRoot {
-						dx.Serve = w.serveCRL(cp, s, true)
+						x.Serve = w.serveOCSP(cp, s)
 					}
-					nt.Plan(w.callerKey(), dx)
-					s.XDelta = append(s.XDelta, []*Exchange{dx})
+					if sc.PanicAt == "transport" && sc.PanicWorld == w.ID && sc.PanicRep == rep && sc.PanicCert == cp.Pos && i == 0 {
+						x.Fault = Fault{Kind: FPanic}
+					}
+					nt.Plan(ck, x)
+					s.X = append(s.X, x)
 				}
-				w.fetchSlots[fmt.Sprintf("%d|%s", w.callerKey(), s.URL)] = &fetchSlot{}
+				for i, s := range cp.CRL {
+					x := &Exchange{URL: s.URL, Kind: "crl", CertPos: cp.Pos, SrcIdx: i, Latency: lat(s.BaseLat), Fault: s.BaseFault, ReadCap: crlReadCap}
+					if !isRoot {
+						x.Serve = w.serveCRL(cp, s, false)
+					}
+					if sc.PanicAt == "transport" && sc.PanicWorld == w.ID && sc.PanicRep == rep && sc.PanicCert == cp.Pos && i == 0 && len(cp.OCSP) == 0 {
+						x.Fault = Fault{Kind: FPanic}
+					}
+					nt.Plan(ck, x)
+					s.XBase = append(s.XBase, x)
+					for j, du := range s.DeltaURL {
+						dx := &Exchange{URL: du, Kind: "delta", CertPos: cp.Pos, SrcIdx: i, Latency: lat(s.DeltaLat[j]), Fault: s.DeltaFault[j], ReadCap: crlReadCap}
+						if !isRoot {
+							dx.Serve = w.serveCRL(cp, s, true)
+						}
+						nt.Plan(ck, dx)
+						s.XDelta[j] = append(s.XDelta[j], dx)
+					}
+					w.fetchSlots[fmt.Sprintf("%d|%s", ck, s.URL)] = &fetchSlot{}
+				}
 			}
 		}
 	}
@@ -745,9 +759,11 @@ func (sc *RevScenario) execInBubble(obs *RevObs, altSeed uint32, onlyWorld int, 
 					continue
 				}
 				for _, s := range cp.CRL {
-					k := fmt.Sprintf("%d|%s", w.callerKey(), s.URL)
-					sf.srcs[k] = &stubSrc{w: w, cp: cp, src: s}
-					sf.lasts[k] = new([]*CRLSpec)
+					for rep := 0; rep < w.reps(); rep++ {
+						k := fmt.Sprintf("%d|%s", w.callerKeyOf(rep), s.URL)
+						sf.srcs[k] = &stubSrc{w: w, cp: cp, src: s}
+						sf.lasts[k] = new([]*CRLSpec)
+					}
 				}
 			}
 		}
@@ -761,7 +777,7 @@ func (sc *RevScenario) execInBubble(obs *RevObs, altSeed uint32, onlyWorld int, 
 			if sc.PanicAt == "cache" && cache != nil {
 				cache.PanicOn, cache.PanicV = cp.CRL[0].URL, pv
 			} else {
-				rf.panicOn = cp.CRL[0].URL
+				rf.panicOn, rf.panicCaller = cp.CRL[0].URL, w.callerKeyOf(sc.PanicRep)
 			}
 		}
 	}
@@ -797,10 +813,22 @@ func (sc *RevScenario) execInBubble(obs *RevObs, altSeed uint32, onlyWorld int, 
 		}
 		worlds = append(worlds, w)
 	}
-	obs.Calls = make([]*CallObs, len(worlds))
-	done := make(chan struct{}, len(worlds))
-	for i, w := range worlds {
-		co := &CallObs{World: w}
+	type job struct {
+		w   *World
+		rep int
+	}
+	var jobs []job
+	for _, w := range worlds {
+		for rep := 0; rep < w.reps(); rep++ {
+			jobs = append(jobs, job{w, rep})
+		}
+	}
+	obs.Calls = make([]*CallObs, len(jobs))
+	obs.PanicToken = pv
+	done := make(chan struct{}, len(jobs))
+	for i, j := range jobs {
+		w, rep := j.w, j.rep
+		co := &CallObs{World: w, Rep: rep}
 		obs.Calls[i] = co
 		call := func() {
 			defer func() {
@@ -813,7 +841,7 @@ func (sc *RevScenario) execInBubble(obs *RevObs, altSeed uint32, onlyWorld int, 
 			co.TStart = time.Now()
 			switch w.Entry {
 			case EValidateContext:
-				ctx := WithCaller(baseCtx, w.ID)
+				ctx := WithCaller(baseCtx, w.callerKeyOf(rep))
 				co.Results, co.Err = validators[w.purposeForCall()].ValidateContext(ctx, revocation.ValidateContextOptions{CertChain: chain, AuthenticSigningTime: w.stArg()})
 			case EValidate:
 				r, err := revocation.New(ocspClient)
@@ -827,14 +855,14 @@ func (sc *RevScenario) execInBubble(obs *RevObs, altSeed uint32, onlyWorld int, 
 			}
 			co.TReturn, co.Returned = time.Now(), true
 		}
-		if len(worlds) == 1 {
+		if len(jobs) == 1 {
 			call()
 		} else {
 			go func() { call(); done <- struct{}{} }()
 		}
 	}
-	if len(worlds) > 1 {
-		for range worlds {
+	if len(jobs) > 1 {
+		for range jobs {
 			<-done
 		}
 	}
@@ -864,11 +892,19 @@ func (sc *RevScenario) execInBubble(obs *RevObs, altSeed uint32, onlyWorld int, 
 
 // callerKey is the caller id under which this world's exchanges are planned:
 // entry points that take no context cannot carry one.
-func (w *World) callerKey() int {
+func (w *World) callerKeyOf(rep int) int {
 	if w.Entry == EValidateContext {
-		return w.ID
+		return w.ID*64 + rep
 	}
 	return 0
+}
+
+// reps is the number of concurrent callers validating this same world.
+func (w *World) reps() int {
+	if w.Reps < 1 || w.Entry != EValidateContext {
+		return 1
+	}
+	return w.Reps
 }
 
 func (w *World) C0() *Cert {
